@@ -190,7 +190,10 @@ impl ClaimData {
 
     /// Convert text to [`ClaimData`]
     pub fn from_text(s: &str) -> CredxResult<Self> {
-        match &s[0..4] {
+        let tag = s
+            .get(0..4)
+            .ok_or(Error::InvalidClaimData("unknown claim type"))?;
+        match tag {
             HASHED_HEX => {
                 let value = hex::decode(&s[4..]).map_err(|_| {
                     Error::InvalidClaimData("unable to decode hashed claim hex string")
@@ -214,7 +217,13 @@ impl ClaimData {
                 Ok(ClaimData::Number(NumberClaim { value }))
             }
             SCALAR => {
-                let value = Option::<Scalar>::from(Scalar::from_be_hex(&s[4..])).ok_or({
+                let bytes = hex::decode(&s[4..])
+                    .ok()
+                    .and_then(|b| <[u8; 32]>::try_from(b).ok())
+                    .ok_or(Error::InvalidClaimData(
+                        "unable to deserialize scalar claim hex string",
+                    ))?;
+                let value = Option::<Scalar>::from(Scalar::from_be_bytes(&bytes)).ok_or({
                     Error::InvalidClaimData("unable to deserialize scalar claim hex string")
                 })?;
                 Ok(ClaimData::Scalar(ScalarClaim { value }))
